@@ -216,6 +216,9 @@ def execute(inst, op, results, world=None):
         results.append(R)
         obs = {'status': dict((k, status_obs(v)) for k, v in sorted(R.items())),
                'written': dict((k, sha(v)) for k, v in sorted(inst.written.items()))}
+        if op.get('codegen', 'json') == 'json' and op.get('solo'):
+            # the same texts without the comment header (who produced the file, when, from where)
+            obs['written_nc'] = dict((k, sha(_without_comments(v))) for k, v in sorted(inst.written.items()))
         if op.get('keep_text'):
             obs['text'] = dict((k, v) for k, v in sorted(inst.written.items()) if k in specs)
         return obs
@@ -261,6 +264,14 @@ def execute(inst, op, results, world=None):
 
 
 _fresh_cache = {}
+
+
+def _without_comments(text):
+    try:
+        doc = json.loads(text, object_pairs_hook=list)
+    except ValueError:
+        return text
+    return json.dumps([[k, ([[k2, v2] for k2, v2 in v if k2 != 'comments'] if k == 'meta' and isinstance(v, list) else v)] for k, v in doc])
 
 
 def per_module_reference(op, obs):
@@ -309,7 +320,8 @@ def per_module_reference(op, obs):
                 mi, text = JsonCodeGen().genCode(trees[n], stmap, comments=comments, dstTemplate=None, genTexts=opts.get('genTexts'), textFilter=None)
             except error.PySmiError:
                 continue
-            out[n] = [obs['written'][n], sha(text)]
+            if n in obs.get('written_nc', {}):
+                out[n] = [obs['written_nc'][n], sha(_without_comments(text))]
     finally:
         inst.close()
     return out
